@@ -20,6 +20,7 @@ META = {
     "not_decided": "accuracy within one ulp; rounding; magnitude overflow between DBL_MAX and 1e310",
     "assumptions": ["cursor + small constant does not overflow SizeT"],
 }
+META["explanation"] += " " + '(TB-casepair, shared with C06) both spellings of the exponent marker are tested together.'
 
 U64 = (1 << 64) - 1
 
